@@ -80,12 +80,21 @@ class C07(GenCheck):
         L = max(L, 0)
         r = rng.random()
         packet = bytes(rng.choice([0, 0xff, 0x80, 0x7f, rng.randrange(256)]) if r < 0.3 else rng.randrange(256) for _ in range(L))
-        return {"G": G, "decls": decls, "values": values, "stmts": stmts, "packet": packet.hex(), "xdp_min": G}
+        case = {"G": G, "decls": decls, "values": values, "stmts": stmts, "packet": packet.hex(), "xdp_min": G}
+        if rng.random() < 0.12:
+            # the statements from position `at` on sit in a second size guard; r9 (the packet base of the first guard) has been
+            # used as an ordinary register in between
+            case["second"] = {"G2": rng.choice([G - 4, G, G, G + 1, G + 8]), "at": rng.randrange(len(stmts) + 1), "junk": rng.choice([0, 0x1234, -1])}
+        return case
 
     def gen_cases(self):
         return [self.make_case(self.rng) for _ in range(500 if self.tier == "quick" else 8000)]
 
     def stmts(self, case):
+        sec = case.get("second")
+        if sec:
+            return ([["set", ["v", "ran"], ["c", 1]]] + case["stmts"][:sec["at"]]
+                    + [["set", ["r", "r", 9], ["c", sec["junk"]]], ["guard", sec["G2"], case["stmts"][sec["at"]:]]])
         return [["set", ["v", "ran"], ["c", 1]]] + case["stmts"]
 
     def prepare(self, cases):
@@ -123,6 +132,11 @@ class C07(GenCheck):
         o = case.get("_o")
         if o is None or isinstance(o, Err):
             return None
+        sec = case.get("second")
+        if sec:
+            l1 = clist([self.cstmt(case, s) for s in [["set", ["v", "ran"], ["c", 1]]] + case["stmts"][:sec["at"]]])
+            l2 = clist([self.cstmt(case, s) for s in case["stmts"][sec["at"]:]])
+            return (f"(run2 {cz(case['G'])} {l1} {cz(sec['G2'])} {l2} {ebpf_exec.cbytes(case['packet'])} {ebpf_exec.cbytes(case['_init'][0])})")
         stmts = clist([self.cstmt(case, s) for s in self.stmts(case)])
         return f"(run {cz(case['G'])} {stmts} {ebpf_exec.cbytes(case['packet'])} {ebpf_exec.cbytes(case['_init'][0])})"
 
@@ -172,7 +186,9 @@ class C07(GenCheck):
                 return pget(x[1]) if isinstance(fm[x[1]], tuple) else loc[x[1]]
             a, b = ev(x[1]), ev(x[2])
             return {"+": a + b, "-": a - b, "|": a | b, "&": a & b, "^": a ^ b}[x[0]]
-        for s in case["stmts"]:
+        sec = case.get("second")
+        todo = case["stmts"] if not sec or len(case["packet"]) > sec["G2"] else case["stmts"][:sec["at"]]
+        for s in todo:
             tgt = s[1][1]
             if s[0] == "set":
                 v = ev(s[2])
@@ -223,7 +239,7 @@ class C07(GenCheck):
     def rule(self):
         return ("XDP programs with minimumPacketSize G in {8..48}, 1-3 packet variables (formats BHIQbhiq with native, <, > and ! order) at offsets 0, G-n and random "
                 "inside the guarded size (overlaps allowed), 1-5 statements: read into a local of any format, write a constant / a local, update with + - | & ^, "
-                "in-place += / -=; packets of length G-2..G+2, G+9, need-1, need, 0, 64, 100 with random / extreme bytes")
+                "in-place += / -=; 12%: the last statements sit in a second size guard (G-4, G, G+1, G+8) after r9 has been used as an ordinary register; packets of length G-2..G+2, G+9, need-1, need, 0, 64, 100 with random / extreme bytes")
 
     def distribution(self, cases, observed):
         d = {"ran": 0, "skipped": 0, "len_eq_G": 0, "explicit_order": 0, "signed_explicit": 0, "statements": 0}
